@@ -497,3 +497,27 @@ def skeleton(fn, start_block, ignore_calls=(), max_nodes=400):
         return head + r
 
     return visit(start_block)
+
+
+def vec_macro_elems(fn, operand):
+    """element operands of a `vec![a, b, ..]` literal that `operand` evaluates to (Box::new_uninit + array store +
+    box_assume_init_into_vec / into_vec lowering), or None."""
+    s = src_of_operand(fn, operand)
+    if s.kind != "call" or not is_callee(s.term, r"box_assume_init_into_vec", r"slice::<impl \[.*\]>::into_vec"):
+        return None
+    b = src_of_operand(fn, s.term["args"][0])
+    boxl = None
+    if b.kind == "call" and is_callee(b.term, r"Box::<.*>::new_uninit$", r"Box::<.*>::new$") and "p" not in b.term["dest"]:
+        boxl = b.term["dest"]["l"]
+        if is_callee(b.term, r"Box::<.*>::new$"):
+            a = src_of_operand(fn, b.term["args"][0])
+            if a.kind == "agg" and a.rv.get("ak") == "array":
+                return list(a.rv.get("ops", []))
+    if boxl is None:
+        return None
+    vals, refs = value_aliases(fn, boxl)
+    for bb in fn.blocks:
+        for st in bb["st"]:
+            if "p" in st["lhs"] and st["lhs"]["l"] in (vals | refs | {boxl}) and st["rv"]["k"] == "agg" and st["rv"].get("ak") == "array":
+                return list(st["rv"].get("ops", []))
+    return None
